@@ -17,7 +17,8 @@ PROFILES = ['foo', 'foo//bar', 'bar', 'foobar', 'firefox', 'firefox//null-/usr/b
 OPS_FILE = [('open', 'r'), ('open', 'w'), ('open', 'rw'), ('mknod', 'c'), ('unlink', 'd'), ('truncate', 'w'), ('exec', 'x'),
             ('file_mmap', 'rm'), ('file_lock', 'k'), ('link', 'l'), ('rename_src', 'rw'), ('mkdir', 'c'), ('chmod', 'w'),
             ('getattr', 'r'), ('file_inherit', 'rw'), ('open', 'wc'), ('open', 'ac'), ('unlink', 'wd'), ('open', 'wrc'),
-            ('open', 'rwc'), ('file_mmap', 'rwm')]
+            ('open', 'rwc'), ('file_mmap', 'rwm'),
+            ('link', 'k')]       # a link whose subset test failed is logged with the mask it lacked, not with l
 
 
 def enc_val(key, v, force=None):
